@@ -86,6 +86,43 @@ def run(ck):
     wit = []
     plants = []
     NP = 120 if quick else 1200
+    def consider(kind, a, b, path, ty, pens, ka, kb, origin):
+        bt = 1 if kind == 'dna' else 0
+        pr = params_for(bt, ty, pens)
+        if pr is None: return
+        gpo, gpe, tgpe, mat = pr
+        tab = tabs['alpha_defDNA'] if kind == 'dna' else tabs['alpha_ambPROTEIN']
+        ca, cb = codes(tab, 'N' if kind == 'dna' else 'X', a), codes(tab, 'N' if kind == 'dna' else 'X', b)
+        score, second = nc.certify(ca, cb, path, gpo, gpe, tgpe, mat)
+        margin = Fraction(1) + Fraction(max(len(a), len(b)), 500)
+        ck.count('plants generated (%s)' % origin)
+        if second is None or score - second < margin:
+            ck.count('plants not certified (no unique optimum by the margin)'); return
+        ck.count('plants certified')
+        plants.append({'kind': kind, 'a': a, 'b': b, 'path': path, 'type': ty, 'pens': pens, 'ka': ka, 'kb': kb, 'margin': float(score - second), 'origin': origin})
+    # (B0) corpus of minimised past failures, run first (known_findings.json, fixed b57ad5d)
+    consider('dna', 'AGTTCTGC', 'AGTTGAACTGC', list('MMMMAAAMMMM'), 5, [gen.NG] * 3, 1, 3, 'corpus')
+    consider('protein', 'YYTTLGSNASMIHCWPARLD', 'YYTTLGSNASHCWPARLD', list('M' * 10 + 'BB' + 'M' * 8), 3,
+             [1090519040, 1094713344, 1073741824], 3, 1, 'corpus')
+    # (B1) a gap that crosses the middle row of the top-level Hirschberg split, both orientations, between groups of copies,
+    # with terminal and internal gap extension far apart in both directions (the case split of the meetup's gb->gb candidate)
+    for k in range(24 if quick else 120):
+        kind = 'dna' if k % 2 == 0 else 'protein'
+        alpha = gen.DNA if kind == 'dna' else gen.PROT
+        n = rng.choice([10, 14, 21, 30]) if quick else rng.choice([10, 21, 44, 90])
+        root = gen.rand_seq(rng, alpha, n)
+        g = rng.range(1, 3)
+        mid = n // 2 + rng.choice([-1, 0, 0, 1])
+        lo = max(3, min(mid - rng.below(g + 1), n - 3 - g))
+        short = root[:lo] + root[lo + g:]
+        if rng.chance(1, 2):
+            a, b, path = root, short, ['M'] * lo + ['B'] * g + ['M'] * (n - lo - g)
+        else:
+            a, b, path = short, root, ['M'] * lo + ['A'] * g + ['M'] * (n - lo - g)
+        pens = rng.choice([[gen.NG] * 3, [gen.fbits(8.0), gen.fbits(12.0), gen.fbits(2.0)], [gen.fbits(8.0), gen.fbits(1.0), gen.fbits(9.0)],
+                           [gen.NG, gen.NG, gen.fbits(0.0)]])
+        ka, kb = rng.choice([(1, 1), (1, 3), (3, 1), (2, 2), (1, 2), (3, 3)])
+        consider(kind, a, b, path, rng.choice(TYPES[kind]), pens, ka, kb, 'gap across the middle row')
     for k in range(NP):
         kind = 'dna' if rng.chance(1, 2) else 'protein'
         alpha = gen.DNA if kind == 'dna' else gen.PROT
@@ -95,21 +132,8 @@ def run(ck):
         pens = [gen.NG] * 3
         if rng.chance(1, 4):
             pens = [gen.fbits(rng.choice([2.0, 5.5, 8.0, 12.0])) if rng.chance(1, 2) else gen.NG for _ in range(3)]
-        bt = 1 if kind == 'dna' else 0
-        pr = params_for(bt, ty, pens)
-        if pr is None: continue
-        gpo, gpe, tgpe, mat = pr
-        tab = tabs['alpha_defDNA'] if kind == 'dna' else tabs['alpha_ambPROTEIN']
-        ca, cb = codes(tab, 'N' if kind == 'dna' else 'X', a), codes(tab, 'N' if kind == 'dna' else 'X', b)
-        score, second = nc.certify(ca, cb, path, gpo, gpe, tgpe, mat)
-        margin = Fraction(1) + Fraction(max(len(a), len(b)), 500)
-        ck.count('plants generated')
-        if second is None or score - second < margin:
-            ck.count('plants not certified (no unique optimum by the margin)'); continue
-        ck.count('plants certified')
         ka, kb = rng.choice([1, 1, 1, 2, 3]), rng.choice([1, 1, 1, 2, 3])
-        # protein detection needs protein-only letters: the sets here are random over 20 letters, fine; DNA is ACGT
-        plants.append({'kind': kind, 'a': a, 'b': b, 'path': path, 'type': ty, 'pens': pens, 'ka': ka, 'kb': kb, 'margin': float(score - second)})
+        consider(kind, a, b, path, ty, pens, ka, kb, 'random')
     lines = [nc.run_line([p['a']] * p['ka'] + [p['b']] * p['kb'], p['type'], p['pens'], rng.choice([1, 4]), flags=4) for p in plants]
     impl = ck.run_lines_sharded(kvh, lines, shards=8, timeout=3000)
     ck.evaluations += len(lines)
